@@ -331,6 +331,22 @@ PrefixAmbiguous(bytes, lax) ==
 \* offset at which the machine rejected (number of bytes consumed), or Len if it did not
 RejectPos(bytes, lax) == BRun(bytes, lax).pos
 
+\* ---- UTF-8 validity of a whole byte string (the up-front check of byte carriers) ----
+Utf8Step(u, b) ==
+  LET c == Class(b) IN
+  CASE u = "bad" -> "bad"
+    [] u = ""   -> CASE c = "c2" -> "1" [] c = "e0" -> "e0" [] c = "e1" -> "2" [] c = "ed" -> "ed"
+                     [] c = "f0" -> "f0" [] c = "f1" -> "3" [] c = "f4" -> "f4"
+                     [] c \in {"x8", "x9", "xa", "bad"} -> "bad" [] OTHER -> ""
+    [] u = "1"  -> IF c \in Cont THEN "" ELSE "bad"
+    [] u = "2"  -> IF c \in Cont THEN "1" ELSE "bad"
+    [] u = "3"  -> IF c \in Cont THEN "2" ELSE "bad"
+    [] u = "e0" -> IF c = "xa" THEN "1" ELSE "bad"
+    [] u = "ed" -> IF c \in {"x8", "x9"} THEN "1" ELSE "bad"
+    [] u = "f0" -> IF c \in {"x9", "xa"} THEN "2" ELSE "bad"
+    [] u = "f4" -> IF c = "x8" THEN "2" ELSE "bad"
+Utf8Valid(bytes) == FoldLeft(Utf8Step, "", bytes) = ""
+
 \* ---- value helpers (shared by JsonValue / LazyGet / ...) ----
 RECURSIVE Strip(_)
 \* forget spans and escape flags: the reference data model of C03
